@@ -1,4 +1,4 @@
-import RpycModel.Srv.RegistryWork
+import RpycModel.Srv.RegistryAlive
 /-
 C18 — the registry reflects exactly the live registrations and cannot be knocked over.
 
@@ -143,6 +143,25 @@ theorem work_total (env : Env) (pruning : Int) (sv : Services) (host : Val) (dgr
     (hinv : Inv sv) (hs : SvStorable sv) : (workStep env pruning sv host dgram now).alive = true :=
   workStep_alive env pruning sv host dgram now hinv hs
 
+/-- what the real `_recv` hands over is a genuine datagram in the sense of `registry_never_dies`: bytes, and at most
+`MAX_DGRAM_SIZE` of them -/
+theorem received_is_genuine (d : Bytes) (hb : ∀ x ∈ d, x < 256) : Genuine (udpRecv d) := by
+  refine ⟨fun x hx => hb x (List.mem_of_mem_take hx), ?_⟩
+  have h1 := (datagram_bounded d).1
+  have h2 : Gen.maxDgramSize < 2 ^ 29 := by decide
+  omega
+
+/-- **The loop never dies, for every history.**  From the empty registry, for every history of fewer than 2^32
+datagrams — each any genuine byte string (what `_recv` returns), from any host whose text `brine.dump` accepts, at
+any clock reading — every iteration of `_work` leaves the loop running.  The hypotheses of `work_total` are
+discharged here: every stored port was decoded from such a datagram, hence can be dumped again
+(`load_storable`), and a name gains at most one server per datagram.  `EnvOk`: iterating a frozenset yields
+members of it. -/
+theorem registry_never_dies (env : Env) (hE : EnvOk env) (pruning : Int) (evs : List Event)
+    (hev : EventsOk evs) (hlen : evs.length < 2 ^ 32) : allAlive env pruning St.init evs = true :=
+  allAlive_of env hE pruning evs St.init 0 inv_nil (by intro e he; simp [St.init] at he)
+    (by intro e he; simp [St.init] at he) hev (by omega)
+
 /-- **A datagram that is not a well-formed command changes nothing**: table identical (order included),
 no notification, no reply, loop running.  No hypothesis on the table. -/
 theorem malformed_is_noop (env : Env) (pruning : Int) (sv : Services) (host : Val) (dgram : Bytes) (now : Int)
@@ -266,6 +285,13 @@ example : ∃ e, dump (request [81, 85, 69, 82, 89] [.str sCalc]) = .ok e
     ∧ workStep env0 3000 table hostB e 6000 = finish (callCmd env0 3000 table hostB 6000 .query [.str sCalc]) := by
   obtain ⟨e, he⟩ := enc_ok (request [81, 85, 69, 82, 89] [.str sCalc]) (by decide +kernel) (by decide +kernel)
   exact ⟨e, he, wellformed_is_executed env0 3000 table hostB 6000 _ _ e (.query, 1) (by decide +kernel) he (lookup_QUERY env0) rfl⟩
+
+/-- a history satisfying the hypotheses of `registry_never_dies`: garbage, a truncated command, a non-text command -/
+example : EnvOk env0 ∧ EventsOk [⟨0, hostA, [255, 255]⟩, ⟨5, hostB, [18, 8, 13, 82, 80]⟩, ⟨5, hostB, [18, 8, 13, 82, 80, 89, 67, 85, 2]⟩] := by
+  refine ⟨fun _ _ h => h, ?_⟩
+  intro e he
+  simp only [List.mem_cons, List.not_mem_nil, or_false] at he
+  rcases he with rfl | rfl | rfl <;> exact ⟨by decide +kernel, by decide, by decide⟩
 
 /-- `("RPYC", 5, ())`, a non-text command: means nothing, so nothing happens (the finding F5(a), repaired) -/
 example : lookupCmd env0 (.int 5) = none := rfl
